@@ -32,6 +32,17 @@ def r_execute(ctx):
     ctx.rule("C14.R2", "every backoff value (incl. the initial one) is capped by max_backoff")
     ctx.rule("C14.R3", "no panicking float->Duration conversion on an unclamped policy value")
     ctx.rule("C14.R4", "retry only after should_retry(); Retry-After takes precedence; jitter in [0,0.3], added")
+    # private helpers of the same file that execute() calls (a maintainer may extract the jitter / the backoff growth into functions): the
+    # conversion, clamp and range rules look into them as well
+    helpers = []
+    work_ = [b]
+    while work_:
+        x_ = work_.pop()
+        for c_ in x_.calls:
+            hb_ = prog.bodies.get(c_.id) if c_.local else None
+            if hb_ is not None and hb_.file == b.file and not hb_.coroutine and hb_ not in helpers and hb_ is not b and len(helpers) < 12:
+                helpers.append(hb_)
+                work_.append(hb_)
     fcalls = b.calls_matching(r"\bFnMut<.*>>?::call_mut$|\bFnOnce<.*>>?::call_once$|\bFn<.*>>?::call$")
     if not ctx.anchor("C14.R1", fcalls, "invocation of the user closure in execute"):
         return
@@ -159,6 +170,15 @@ def r_execute(ctx):
         for n, (bb, idx, kind, payload) in enumerate(b.defs.get(bvar, [])):
             srcsl = def_slice(b, kind, payload)
             capped = any(re.search(r"::(min|clamp)$", c.name) for c in srcsl.calls) and srcsl.has_field("max_backoff")
+            if not capped:
+                # the value comes out of a helper: its return value is capped there
+                from .lib import return_holders
+                for hc in srcsl.calls:
+                    hb_ = prog.bodies.get(hc.id) if hc.local else None
+                    if hb_ in helpers:
+                        rs_ = Slice(hb_, list(return_holders(hb_)), transparent=True)
+                        if any(re.search(r"::(min|clamp)$", c.name) for c in rs_.calls) and rs_.has_field("max_backoff"):
+                            capped = True
             line = payload["l"] if kind == "assign" else payload.line
             which = "initial" if srcsl.has_field("initial_backoff") and bvar not in srcsl.locals else "update"
             ctx.check(capped, "C14.R2", [b.id, "backoff-capped", which], "backoff value is capped by max_backoff",
@@ -167,8 +187,11 @@ def r_execute(ctx):
                       "execute(): a backoff update is not capped by self.max_backoff: delays grow without bound", "%s:%d" % (b.file, line),
                       sample={"assignment": which, "line": line})
     # ---- R3: panicking conversions --------------------------------------------------------------------------
-    conv = b.calls_matching(r"\bDuration::(from_secs_f64|from_secs_f32|mul_f64|mul_f32|div_f64|div_f32)$")
-    for n, c in enumerate(conv):
+    conv = [(b, c) for c in b.calls_matching(r"\bDuration::(from_secs_f64|from_secs_f32|mul_f64|mul_f32|div_f64|div_f32)$")]
+    for hb_ in helpers:
+        conv += [(hb_, c) for c in hb_.calls_matching(r"\bDuration::(from_secs_f64|from_secs_f32|mul_f64|mul_f32|div_f64|div_f32)$")]
+    b_exec = b
+    for n, (b, c) in enumerate(conv):
         meth = c.name.split("::")[-1]
         if meth.startswith("from_secs"):
             a = Slice(b, [op_local(c.args[0])], transparent=True) if op_local(c.args[0]) is not None else None
@@ -185,7 +208,8 @@ def r_execute(ctx):
             ctx.check(not policy, "C14.R3", [b.id, meth, "policy-factor"], "no Duration::%s with a policy-derived factor" % meth,
                       "execute(): Duration::%s multiplies by the configured multiplier before any clamp: NaN, infinite, huge or negative multipliers panic "
                       "inside the conversion, before `.min(max_backoff)` can apply" % meth, c.loc())
-    ctx.floor("C14.R3", len(conv), 1, "float->Duration conversions in execute")
+    b = b_exec
+    ctx.floor("C14.R3", len(conv), 1, "float->Duration conversions in execute (and the private helpers it calls)")
     # ---- R4b: Retry-After precedence and jitter -------------------------------------------------------------
     hint = b.calls_matching(r"ProtocolError::retry_after_hint$")
     if ctx.anchor("C14.R4", hint, "retry_after_hint() in execute"):
@@ -204,9 +228,11 @@ def r_execute(ctx):
         ctx.check(in_delay and some_ok and passes, "C14.R4", [b.id, "hint-precedence"], "Retry-After hint, when present, is the delay",
                   "execute() ignores the server's Retry-After hint or mixes the exponential backoff into it", h.loc(),
                   sample={"hint_call": h.loc(), "flows_to_sleep": in_delay})
-    rr = b.calls_matching(r"random_range$|gen_range$")
-    if ctx.anchor("C14.R4", rr, "jitter random_range in execute"):
-        for c in rr:
+    rr = [(b, c) for c in b.calls_matching(r"random_range$|gen_range$")]
+    for hb_ in helpers:
+        rr += [(hb_, c) for c in hb_.calls_matching(r"random_range$|gen_range$")]
+    if ctx.anchor("C14.R4", rr, "jitter random_range in execute (or a private helper it calls)"):
+        for (b, c) in rr:
             lo = hi = None
             for a in c.args[1:]:
                 if op_local(a) is None:
@@ -239,6 +265,7 @@ def r_execute(ctx):
                           "execute() samples its jitter from a computed exclusive range `lo..hi` whose upper end is not established to be above the lower one on "
                           "the path to the call: for a delay that rounds to zero (zero backoff, zero multiplier, Retry-After: 0) the range is empty and "
                           "random_range panics ('cannot sample empty range') instead of retrying", c.loc(), sample={"range_end_locals": ends})
+        b = b_exec
         subs = [c for c in b.calls if not c.expn and re.search(r"\bSub(Assign)?<.*>>?::sub(_assign)?$|Duration::(saturating_sub|checked_sub)$", c.name) and
                 any(op_local(a) in dsl.locals for a in c.args)]
         ctx.check(not subs, "C14.R4", [b.id, "jitter-added"], "jitter is added to the delay",
